@@ -571,10 +571,26 @@ def _frf_minus(ctx):
             t, i, v = P.norm(e.target), P.norm(e.index), P.norm(e.value)
             if t in (E, EX):
                 final[(t, i)] = _signed(_replay(v, final))
-        ok1 = final.get((E, c1)) == (-1, ("idx", E, c0))
-        ok2 = final.get((EX, c1)) == (1, ("idx", EX, c0))
+        blind = bool(unfollowed_writes(P, mmv, family=True)) if mmv is not None else True
+
+        def col1(tab, sign):
+            """True: column 1 of the table is sign * column 0; False: it is provably something else (another column / sign of the same tables,
+            a constant, or never written); None: a value the rule does not understand"""
+            got = final.get((tab, c1))
+            if got is None:
+                return None if blind else False
+            if got == (sign, ("idx", tab, c0)):
+                return True
+            core = got[1]
+            if is_const(core) or (core[0] in ("idx", "ld") and core[1] in (E, EX)):
+                return False
+            return None
+
+        ok1, ok2 = col1(E, -1), col1(EX, 1)
         other = [k for k in final if k not in ((E, c1), (EX, c1))]
-        A.req(key, ok and ok1 and ok2 and not other, ex[0].node, {"mm": show(mmn), "min column": ok1, "min abscissa": ok2})
+        verdict = False if (not ok or ok1 is False or ok2 is False) else (None if (ok1 is None or ok2 is None or other) else True)
+        A.req(key, verdict, ex[0].node, {"mm": show(mmn), "min column": ok1, "min abscissa": ok2,
+                                          "other stores": [show(k[0]) + "[" + show(k[1]) + "]" for k in other]})
     A.flush(fn)
 
 
@@ -602,6 +618,12 @@ def _signed(v):
             sg, v = -sg, v[2]
         elif v[0] == "op" and v[1] == "mul" and len(v) == 4 and v[2] in (("c", -1), ("c", -1.0)):
             sg, v = -sg, v[3]
+        elif v[0] == "op" and v[1] in ("mul", "div") and len(v) == 4 and v[3] in (("c", 1), ("c", 1.0)):
+            v = v[2]
+        elif v[0] == "op" and v[1] == "mul" and len(v) == 4 and v[2] in (("c", 1), ("c", 1.0)):
+            v = v[3]
+        elif v[0] == "op" and v[1] == "add" and len(v) == 4 and (("c", 0) in v[2:] or ("c", 0.0) in v[2:]):
+            v = v[3] if v[2] in (("c", 0), ("c", 0.0)) else v[2]
         elif v[0] == "op" and v[1] == "sub" and len(v) == 4 and v[2] in (("c", 0), ("c", 0.0)):
             sg, v = -sg, v[3]
         else:
@@ -681,7 +703,7 @@ def r2_mirror(ctx):
         else:
             w = M.canon(P.norm(amx))
             wrong_where = w[0] == "call" and w[1] == "np.where" and len(w[2]) == 3 and w[2][0] in (pv, op("inv", pv)) and set(w[2][1:]) <= {V1, V2}
-            good = False if (wrong_where or (P.obj(amx) is not None and content_root(P.norm(amx)) == V1)) else None
+            good = False if (wrong_where or (P.obj(amx) is not None and content_root(P.norm(amx)) == V1 and not unfollowed_writes(P, amx))) else None
         if good is not True:
             ok = good if ok is not False else ok
             det = {"returns": show(P.norm(r)), "stores": [(show(P.norm(e.index)), show(P.norm(e.value))) for e in st]}
